@@ -515,4 +515,289 @@ theorem C14_no_variables_section (ini ini' : Ini) (op : Op) (hnv : ∀ p ∈ ini
   no_variables_step ini ini' op hnv h
 
 
+/-! ## The code itself: the command-line layer (`potable/__init__.py`)
+
+`Atsim.Gen.Logic.create_override_tuple / item_id / cli_operations` are `_create_override_tuple`, `_item_id` and the first part of `_make_config_parser` (up to the
+construction of the parser, which is handed the two lists) as regenerated on every run: `SECTION:KEY=VALUE` is split at the FIRST `=` and then at the LAST `:`, the
+`-e` and `-r` options fill one ordered dictionary keyed by section and key-without-white-space, `-a` options a list. -/
+
+namespace CliTie
+open Atsim.Gen.Logic
+
+theorem splitFirstChars_sep (c : Char) (a b : List Char) (h : c ∉ a) :
+    splitFirstChars c (a ++ c :: b) = [a, b] := by
+  induction a with
+  | nil => simp [splitFirstChars]
+  | cons x a ih =>
+    simp only [List.mem_cons, not_or] at h
+    have e : (x == c) = false := by simpa using fun hx => h.1 hx.symm
+    simp [splitFirstChars, e, ih h.2]
+
+theorem pySplitFirst_sep (a b : String) (c : Char) (h : c ∉ a.toList) :
+    pySplitFirst (a ++ String.singleton c ++ b) c = [a, b] := by
+  simp [pySplitFirst, String.toList_append, splitFirstChars_sep c _ _ h]
+
+theorem pyRSplitLast_sep (a b : String) (c : Char) (h : c ∉ b.toList) :
+    pyRSplitLast (a ++ String.singleton c ++ b) c = [a, b] := by
+  have h' : c ∉ b.toList.reverse := by simpa using h
+  simp [pyRSplitLast, String.toList_append, splitFirstChars_sep c _ _ h']
+
+end CliTie
+
+open Atsim.Gen.Logic in
+/-- **code tie (option syntax)**: an option `SECTION:KEY=VALUE` is read back as its three parts whenever the key contains neither `:` nor `=` and the section name no
+    `=` - section names may contain `:` (`Table-Form:NAME`), values may contain `:` and `=` -/
+theorem C14_code_parse_item_value (s k v : String) (hs : '=' ∉ s.toList) (hk : '=' ∉ k.toList) (hk' : ':' ∉ k.toList) :
+    create_override_tuple (s ++ ":" ++ k ++ "=" ++ v) true = .ok ⟨s, k, some v⟩ := by
+  have h1 : '=' ∉ (s ++ ":" ++ k).toList := by
+    simp [String.toList_append, hs, hk]
+  have e1 := CliTie.pySplitFirst_sep (s ++ ":" ++ k) v '=' h1
+  have e2 := CliTie.pyRSplitLast_sep s k ':' hk'
+  have c1 : String.singleton '=' = "=" := rfl
+  have c2 : String.singleton ':' = ":" := rfl
+  rw [c1] at e1
+  rw [c2] at e2
+  simp only [create_override_tuple, if_true, e1, e2]
+
+open Atsim.Gen.Logic in
+/-- **code tie (option syntax, removal)**: `SECTION:KEY` -/
+theorem C14_code_parse_item_novalue (s k : String) (hk' : ':' ∉ k.toList) :
+    create_override_tuple (s ++ ":" ++ k) false = .ok ⟨s, k, none⟩ := by
+  have e2 := CliTie.pyRSplitLast_sep s k ':' hk'
+  have c2 : String.singleton ':' = ":" := rfl
+  rw [c2] at e2
+  simp [create_override_tuple, e2]
+
+namespace CliTie
+open Atsim.Gen.Logic
+
+/-- all options of one kind, in the order given, parsed; the first malformed one is the error -/
+def parsed (hasValue : Bool) (l : Option (List (List String))) : Except OvErr (List OvRec) :=
+  (l.getD []).flatten.mapM fun t => create_override_tuple t hasValue
+
+end CliTie
+
+namespace CliTie
+open Atsim.Gen.Logic Atsim.IniOps
+
+/-- one step of `cliDict` -/
+def dictStep (acc : List OvRec) (o : OvRec) : List OvRec :=
+  if acc.any (fun p => cliKey p == cliKey o) then acc.map (fun p => if cliKey p == cliKey o then o else p) else acc ++ [o]
+
+def mkEntry (v : OvRec) : (String × String) × OvRec := (cliKey v, v)
+
+theorem odictSet_mkEntry (acc : List OvRec) (t : OvRec) :
+    odictSet (acc.map mkEntry) (item_id norm t) t = (dictStep acc t).map mkEntry := by
+  have hk : item_id norm t = cliKey t := rfl
+  rw [hk]
+  unfold odictSet dictStep
+  have hany : ((acc.map mkEntry).any fun e => e.1 == cliKey t) = acc.any (fun p => cliKey p == cliKey t) := by
+    simp [List.any_map, mkEntry, Function.comp_def]
+  rw [hany]
+  split
+  · simp only [List.map_map]
+    apply List.map_congr_left
+    intro p _
+    simp only [Function.comp, mkEntry]
+    split <;> simp_all
+  · simp [mkEntry]
+
+theorem foldl_odictSet_mkEntry (l acc : List OvRec) :
+    l.foldl (fun d t => odictSet d (item_id norm t) t) (acc.map mkEntry) = (l.foldl dictStep acc).map mkEntry := by
+  induction l generalizing acc with
+  | nil => rfl
+  | cons t l ih => simp only [List.foldl_cons, odictSet_mkEntry, ih]
+
+theorem foldl_odictSet_values (l : List OvRec) :
+    (l.foldl (fun d t => odictSet d (item_id norm t) t) []).map (fun e => e.2) = cliDict l := by
+  have := foldl_odictSet_mkEntry l []
+  simp only [List.map_nil] at this
+  rw [this, List.map_map]
+  have : ((fun e : (String × String) × OvRec => e.2) ∘ mkEntry) = id := rfl
+  rw [this, List.map_id]
+  rfl
+
+theorem mapM_cons_except {α β ε : Type} (f : α → Except ε β) (x : α) (xs : List α) :
+    (x :: xs).mapM f = (f x).bind fun y => (xs.mapM f).bind fun ys => .ok (y :: ys) := by
+  rw [List.mapM_cons]; rfl
+
+theorem mapM_nil_except {α β ε : Type} (f : α → Except ε β) :
+    ([] : List α).mapM f = .ok [] := by
+  rw [List.mapM_nil]; rfl
+
+theorem loop3_eq rw ca al cf ef od co ol cr cs (xs : List String) :
+    cli_operations_loop3 rw ca al cf ef od co ol cr cs xs =
+      (xs.mapM fun t => create_override_tuple t true).bind fun a => .ok (ol, al ++ a) := by
+  induction xs generalizing al with
+  | nil => simp [cli_operations_loop3, pure, Except.pure, Except.bind]
+  | cons x xs ih =>
+    rw [cli_operations_loop3, mapM_cons_except]
+    cases create_override_tuple x true with
+    | error e => simp [andThen, Except.bind]
+    | ok v =>
+      simp only [andThen, Except.bind, ih]
+      cases List.mapM (fun t => create_override_tuple t true) xs <;> simp
+
+theorem loop4_eq rw ca al cf ef od co ol cr cs (xs : List String) :
+    cli_operations_loop4 rw ca al cf ef od co ol cr cs xs =
+      (xs.mapM fun t => create_override_tuple t true).bind fun a => .ok (ol, al ++ a) := by
+  induction xs generalizing al with
+  | nil => simp [cli_operations_loop4, pure, Except.pure, Except.bind]
+  | cons x xs ih =>
+    rw [cli_operations_loop4, mapM_cons_except]
+    cases create_override_tuple x true with
+    | error e => simp [andThen, Except.bind]
+    | ok v =>
+      simp only [andThen, Except.bind, ih]
+      cases List.mapM (fun t => create_override_tuple t true) xs <;> simp
+
+theorem loop6_eq rw ca al cf ef od co ol cr cs (xs : List String) :
+    cli_operations_loop6 rw ca al cf ef od co ol cr cs xs =
+      (xs.mapM fun t => create_override_tuple t true).bind fun a => .ok (ol, al ++ a) := by
+  induction xs generalizing al with
+  | nil => simp [cli_operations_loop6, pure, Except.pure, Except.bind]
+  | cons x xs ih =>
+    rw [cli_operations_loop6, mapM_cons_except]
+    cases create_override_tuple x true with
+    | error e => simp [andThen, Except.bind]
+    | ok v =>
+      simp only [andThen, Except.bind, ih]
+      cases List.mapM (fun t => create_override_tuple t true) xs <;> simp
+
+theorem loop7_eq rw ca al cf ef od co ol cr cs (xs : List String) :
+    cli_operations_loop7 rw ca al cf ef od co ol cr cs xs =
+      (xs.mapM fun t => create_override_tuple t true).bind fun a => .ok (ol, al ++ a) := by
+  induction xs generalizing al with
+  | nil => simp [cli_operations_loop7, pure, Except.pure, Except.bind]
+  | cons x xs ih =>
+    rw [cli_operations_loop7, mapM_cons_except]
+    cases create_override_tuple x true with
+    | error e => simp [andThen, Except.bind]
+    | ok v =>
+      simp only [andThen, Except.bind, ih]
+      cases List.mapM (fun t => create_override_tuple t true) xs <;> simp
+
+theorem parsed_some (b : Bool) (l : List (List String)) :
+    parsed b (some l) = l.flatten.mapM fun t => create_override_tuple t b := rfl
+
+theorem parsed_none (b : Bool) : parsed b none = .ok [] := by
+  simp [parsed, pure, Except.pure]
+
+theorem loop2_eq rw ca cf ef od co cr cs (xs : List String) :
+    cli_operations_loop2 rw ca cf ef od co cr cs xs =
+      (xs.mapM fun t => create_override_tuple t false).bind fun r => (parsed true ca).bind fun a =>
+        .ok ((r.foldl (fun d t => odictSet d (item_id rw t) t) od).map (fun e => e.2), a) := by
+  induction xs generalizing od with
+  | nil =>
+    rw [mapM_nil_except]
+    cases ca with
+    | none => simp [cli_operations_loop2, parsed_none, Except.bind]
+    | some l => simp [cli_operations_loop2, parsed_some, loop3_eq, Except.bind]
+  | cons x xs ih =>
+    rw [cli_operations_loop2, mapM_cons_except]
+    cases create_override_tuple x false with
+    | error e => simp [andThen, Except.bind]
+    | ok v =>
+      simp only [andThen, Except.bind, ih]
+      cases List.mapM (fun t => create_override_tuple t false) xs <;> simp
+
+theorem loop5_eq rw ca cf ef od co cr cs (xs : List String) :
+    cli_operations_loop5 rw ca cf ef od co cr cs xs =
+      (xs.mapM fun t => create_override_tuple t false).bind fun r => (parsed true ca).bind fun a =>
+        .ok ((r.foldl (fun d t => odictSet d (item_id rw t) t) od).map (fun e => e.2), a) := by
+  induction xs generalizing od with
+  | nil =>
+    rw [mapM_nil_except]
+    cases ca with
+    | none => simp [cli_operations_loop5, parsed_none, Except.bind]
+    | some l => simp [cli_operations_loop5, parsed_some, loop6_eq, Except.bind]
+  | cons x xs ih =>
+    rw [cli_operations_loop5, mapM_cons_except]
+    cases create_override_tuple x false with
+    | error e => simp [andThen, Except.bind]
+    | ok v =>
+      simp only [andThen, Except.bind, ih]
+      cases List.mapM (fun t => create_override_tuple t false) xs <;> simp
+
+theorem loop1_eq rw ca cf ef od co cr cs (xs : List String) :
+    cli_operations_loop1 rw ca cf ef od co cr cs xs =
+      (xs.mapM fun t => create_override_tuple t true).bind fun o => (parsed false cr).bind fun r =>
+        (parsed true ca).bind fun a =>
+          .ok (((o ++ r).foldl (fun d t => odictSet d (item_id rw t) t) od).map (fun e => e.2), a) := by
+  induction xs generalizing od with
+  | nil =>
+    rw [mapM_nil_except]
+    cases cr with
+    | some l => simp [cli_operations_loop1, parsed_some, loop2_eq, Except.bind]
+    | none =>
+      cases ca with
+      | none => simp [cli_operations_loop1, parsed_none, Except.bind]
+      | some l => simp [cli_operations_loop1, parsed_none, parsed_some, loop4_eq, Except.bind]
+  | cons x xs ih =>
+    rw [cli_operations_loop1, mapM_cons_except]
+    cases create_override_tuple x true with
+    | error e => simp [andThen, Except.bind]
+    | ok v =>
+      simp only [andThen, Except.bind, ih]
+      cases List.mapM (fun t => create_override_tuple t true) xs <;> simp
+
+/-- the key function of `cliOverridesWith true` -/
+def opKey : Op → String × String
+  | .override s k _ => (s, norm k) | .remove s k => (s, norm k) | .add s k _ => (s, norm k)
+
+theorem opKey_eq (o : Op) : opKey o = cliKey (toOv o) := by cases o <;> rfl
+
+/-- one step of `cliOverridesWith true` -/
+def opStep (acc : List Op) (o : Op) : List Op :=
+  if acc.any (fun p => opKey p == opKey o) then acc.map (fun p => if opKey p == opKey o then o else p) else acc ++ [o]
+
+theorem opStep_toOv (acc : List Op) (o : Op) : (opStep acc o).map toOv = dictStep (acc.map toOv) (toOv o) := by
+  unfold opStep dictStep
+  have hany : ((acc.map toOv).any fun p => cliKey p == cliKey (toOv o)) = acc.any (fun p => opKey p == opKey o) := by
+    simp [List.any_map, Function.comp_def, opKey_eq]
+  rw [hany]
+  split
+  · simp only [List.map_map]
+    apply List.map_congr_left
+    intro p _
+    simp only [Function.comp, opKey_eq]
+    split <;> rfl
+  · simp
+
+theorem foldl_opStep_toOv (l acc : List Op) :
+    (l.foldl opStep acc).map toOv = (l.map toOv).foldl dictStep (acc.map toOv) := by
+  induction l generalizing acc with
+  | nil => rfl
+  | cons o l ih => simp only [List.foldl_cons, List.map_cons, ih, opStep_toOv]
+
+theorem cliOverrides_eq (ovs rms : List Op) : cliOverrides ovs rms = (ovs ++ rms).foldl opStep [] := by
+  rfl
+
+end CliTie
+
+open Atsim.Gen.Logic Atsim.IniOps CliTie in
+/-- **code tie (the dictionary)**: the lists handed to `ConfigParser(overrides=, additional=)` are `cliDict` of the parsed `-e` options followed by the parsed `-r`
+    options, and the parsed `-a` options in the order given; a malformed option is an error before anything else happens -/
+theorem C14_code_cli_operations (ovs adds rms : Option (List (List String))) :
+    cli_operations norm () ovs adds rms () () =
+      (parsed true ovs).bind fun o => (parsed false rms).bind fun r => (parsed true adds).bind fun a => .ok (cliDict (o ++ r), a) := by
+  simp only [← foldl_odictSet_values]
+  unfold cli_operations
+  cases ovs with
+  | some l => simp only [loop1_eq, parsed_some]
+  | none =>
+    cases rms with
+    | some l => simp [loop5_eq, parsed_some, parsed_none, Except.bind]
+    | none =>
+      cases adds with
+      | some l => simp [loop7_eq, parsed_some, parsed_none, Except.bind]
+      | none => simp [parsed_none, Except.bind]
+
+open Atsim.IniOps in
+/-- the dictionary of the code is the model's `cliOverrides` (`C14_cli_last_wins`, `C14_cli_whitespace` are about it) -/
+theorem C14_cli_dict_model (ovs rms : List Op) : (cliOverrides ovs rms).map toOv = cliDict ((ovs ++ rms).map toOv) := by
+  rw [CliTie.cliOverrides_eq, CliTie.foldl_opStep_toOv]
+  rfl
+
+
 end Atsim.C14
